@@ -585,76 +585,162 @@ structure ConfVals where
   instant : Nat            -- supybot.reply.mores.instant
 deriving DecidableEq, Repr
 
+/-- the keyword arguments of one `irc.reply(...)` -/
+structure Kw where
+  to : Option Str := none
+  notice : Option Bool := none
+  priv : Option Bool := none
+  prefixNick : Option Bool := none
+  action : Option Bool := none
+  noLengthCheck : Option Bool := none
+deriving DecidableEq, Repr
+
+/-- the reply attributes of a proxy (`self.to`, `self.notice`, …) -/
+structure Attrs where
+  to : Option Str := none
+  notice : Option Bool := none
+  priv : Option Bool := none
+  action : Option Bool := none
+  noLengthCheck : Option Bool := none
+  prefixNick : Bool
+deriving DecidableEq, Repr
+
+/-- Python's `a or b` on `None` / `False` / `True` -/
+def orPy (a b : Option Bool) : Option Bool := if a = some true then some true else b
+
+def truthyStr : Option Str → Bool
+  | some t => !t.isEmpty
+  | none => false
+
+/-- the head of `reply()`: how the keywords update the attributes of the proxy -/
+def Attrs.apply (a : Attrs) (k : Kw) : Attrs :=
+  let pn := k.prefixNick.getD a.prefixNick
+  let action := match k.action with
+    | some v => orPy a.action (some v)
+    | none => a.action
+  let pn := if k.action = some true then false else pn
+  let notice := match k.notice with
+    | some v => orPy a.notice (some v)
+    | none => a.notice
+  let priv := match k.priv with
+    | some v => orPy a.priv (some v)
+    | none => a.priv
+  let to := match k.to with
+    | some t => if truthyStr a.to then a.to else some t
+    | none => a.to
+  { to := to, notice := notice, priv := priv, action := action, prefixNick := pn,
+    noLengthCheck := orPy (orPy k.noLengthCheck a.noLengthCheck) action }
+
+/-- a nested command's final reply is handed to the OUTER proxy with all the attributes of the inner one:
+`self.irc.reply(s, noLengthCheck=self.noLengthCheck, to=self.to, notice=self.notice, action=self.action,
+private=self.private, prefixNick=self.prefixNick)` — they stay set on the outer proxy (they leak) -/
+def Attrs.forward (a : Attrs) : Kw :=
+  { to := a.to, notice := a.notice, priv := a.priv, prefixNick := some a.prefixNick, action := a.action,
+    noLengthCheck := a.noLengthCheck }
+
+/-- what a network sets for the configuration values: for the whole network, and for one channel of it -/
+structure NetConf where
+  net : Option ConfVals := none
+  netChan : Option (Str × ConfVals) := none
+deriving DecidableEq, Repr
+
 /-- one call of `irc.reply` / `irc.error` as the command sees it, before any configuration lookup -/
 structure Call where
   botPrefix : Str
   msgPrefix : Str            -- msg.prefix
   nick : Str                 -- msg.nick
-  msgTarget : Str            -- msg.args[0]
-  msgIsChannel : Bool        -- msg.channel is not None
-  to : Option Str            -- to=
-  pubTo : Bool               -- irc.isChannel(irc.stripChannelPrefix(to))
+  msgTarget : Str            -- msg.args[0] (with its STATUSMSG prefix, if any)
+  msgChannel : Option Str    -- msg.channel: the channel without STATUSMSG prefix, or None
+  kw : Kw                    -- the keywords of this call
+  inner : Option Kw          -- the keywords of the nested command whose reply is this call's text
+  toStripped : Option Str    -- irc.stripChannelPrefix(self.to)
+  pubTo : Bool               -- irc.isChannel(irc.stripChannelPrefix(self.to))
   pubNick : Bool
   pubMsgTarget : Bool
-  chanTo : Bool              -- ircutils.isChannel(to)         (the test made by registry.getSpecific)
+  chanTo : Bool              -- ircutils.isChannel(self.to)         (the test made by registry.getSpecific)
   chanMsgTarget : Bool       -- ircutils.isChannel(msg.args[0])
-  toIsNick : Bool            -- ircutils.isNick(to)
-  toHostmask : Option Str    -- irc.state.nickToHostmask(to), when known
-  notice : Option Bool       -- notice=
-  priv : Option Bool         -- private=
-  prefixNick : Option Bool   -- prefixNick=
-  action : Bool              -- action=True
+  toIsNick : Bool            -- ircutils.isNick(self.to)
+  toHostmask : Option Str    -- irc.state.nickToHostmask(self.to), when known
   stripCtcp : Bool
   texts : Texts
   noticeWhenPrivate : Bool   -- supybot.reply.withNoticeWhenPrivate (global)
   confGlobal : ConfVals
   confChan : Option (Str × ConfVals)     -- the values set for one channel
+  confNet : NetConf := {}                -- the values set for this network
 deriving DecidableEq, Repr
 
-/-- `conf.get(group, channel=ch)`: the channel's values when `ch` is that channel, else the global ones -/
+/-- `conf.get(group, channel=ch, network=irc.network)` (`registry.Value.getSpecific`): with a channel, the
+network's values win as soon as the network (or the network for that channel) has one set; else the
+channel's values, else the global ones.  Without a (valid) channel: the network's values, else global. -/
 def Call.confAt (c : Call) (ch : Option Str) : ConfVals :=
-  match ch, c.confChan with
-  | some x, some (oc, v) => if x = oc then v else c.confGlobal
-  | _, _ => c.confGlobal
+  match ch with
+  | some x =>
+    let nc : Option ConfVals := match c.confNet.netChan with
+      | some (oc, v) => if x = oc then some v else none
+      | none => none
+    match nc, c.confNet.net with
+    | some v, _ => v
+    | none, some v => v
+    | none, none =>
+      (match c.confChan with
+       | some (oc, v) => if x = oc then v else c.confGlobal
+       | none => c.confGlobal)
+  | none => c.confNet.net.getD c.confGlobal
 
-/-- the target `_makeReply` starts from (`replyTo(msg)`, or `to` when it is a channel) and whether it
-is public: the channel its configuration is looked up for -/
+/-- `_resetReplyAttributes` -/
+def Call.reset (c : Call) : Attrs :=
+  { prefixNick := (c.confAt c.msgChannel).withNickPrefix }
+
+/-- the attributes of the proxy when `_makeReply` runs -/
+def Call.attrs (c : Call) : Attrs :=
+  match c.inner with
+  | none => c.reset.apply c.kw
+  | some ki => (c.reset.apply (c.reset.apply ki).forward).apply c.kw
+
+def Call.to (c : Call) : Option Str := c.attrs.to
+def Call.action (c : Call) : Bool := c.attrs.action == some true
+/-- `self.noLengthCheck` is true: one message, whatever its size -/
+def Call.unchecked (c : Call) : Bool := c.attrs.noLengthCheck == some true
+def Call.msgIsChannel (c : Call) : Bool := c.msgChannel.isSome
+
+/-- the channel `_makeReply` looks its configuration up for: `irc.stripChannelPrefix(target)` when the
+target (`replyTo(msg)`, or `to` when it is a channel) is public -/
 def Call.lookupChannel (c : Call) : Option Str :=
-  let target0 := if c.msgIsChannel then c.msgTarget else c.nick
-  let pub0 := if c.msgIsChannel then c.pubMsgTarget else c.pubNick
+  let chan0 : Option Str := if c.msgIsChannel then (if c.pubMsgTarget then c.msgChannel else none)
+    else (if c.pubNick then some c.nick else none)
   match c.to with
-  | some t => if c.pubTo then some t else (if pub0 then some target0 else none)
-  | none => if pub0 then some target0 else none
+  | some _ => if c.pubTo then c.toStripped else chan0
+  | none => chan0
 
 /-- the reply attributes and configuration values as `_makeReply` will see them -/
 def Call.env (c : Call) : Env :=
-  -- _resetReplyAttributes: self.prefixNick = conf.get(withNickPrefix, channel=msg.channel) / global
-  let dflt := (c.confAt (if c.msgIsChannel then some c.msgTarget else none)).withNickPrefix
-  -- reply(): if prefixNick is not None: self.prefixNick = prefixNick; if action: self.prefixNick = False
-  let pn := if c.action then false else c.prefixNick.getD dflt
+  let a := c.attrs
   let cv := c.confAt c.lookupChannel
   { botPrefix := c.botPrefix, nick := c.nick, msgTarget := c.msgTarget, msgIsChannel := c.msgIsChannel,
-    to := c.to, pubTo := c.pubTo, pubNick := c.pubNick, pubMsgTarget := c.pubMsgTarget,
-    notice := c.notice, priv := c.priv, prefixNick := some pn, stripCtcp := c.stripCtcp,
+    to := a.to, pubTo := c.pubTo, pubNick := c.pubNick, pubMsgTarget := c.pubMsgTarget,
+    notice := a.notice, priv := a.priv, prefixNick := some a.prefixNick, stripCtcp := c.stripCtcp,
     confWithNotice := cv.withNotice, confInPrivate := cv.inPrivate, confWithNickPrefix := cv.withNickPrefix,
     confNoticeWhenPrivate := c.noticeWhenPrivate, texts := c.texts, action := c.action, errorMode := false,
     confErrNotice := cv.errNotice, confErrPrivate := cv.errPrivate }
 
-/-- `irc.error(s)`: no keyword reaches `_makeReply`; `prefixNick` falls back to the configuration -/
+/-- `irc.error(s)`: no keyword and no attribute of the proxy reaches `_makeReply` -/
 def Call.errorEnv (c : Call) : Env :=
-  let c' := { c with to := none, pubTo := false, chanTo := false, notice := none, priv := none, prefixNick := none,
-                     action := false }
+  let c' := { c with kw := {}, inner := none, toStripped := none, pubTo := false, chanTo := false, toIsNick := false }
   { c'.env with prefixNick := none, errorMode := true }
 
-/-- `target = self._getTarget(to)`: the channel the `reply.mores.*` values are looked up for -/
+/-- `target = self._getTarget(to)`: the channel the `reply.mores.*` values are looked up for (the raw
+target: a STATUSMSG-prefixed one is not a channel for `registry.getSpecific`) -/
 def Call.cfg (c : Call) : Cfg :=
-  let usesTo := c.priv == some true && (match c.to with
-    | some t => !t.isEmpty
-    | none => false)
+  let usesTo := c.attrs.priv == some true && truthyStr c.to
   let target := if usesTo then c.to.getD [] else c.msgTarget
   let isChan := if usesTo then c.chanTo else c.chanMsgTarget
   let cv := c.confAt (if isChan then some target else none)
   { moresLength := cv.moresLength, maximumMores := cv.maximum, instant := cv.instant, mores := cv.mores }
+
+/-- one call of `irc.reply(s, …)`: the length-checked branch unless `noLengthCheck` (set by `action=True`,
+here or in the nested command) -/
+def Call.reply (c : Call) (chunks : List Str) (s : Str) : ReplyRes :=
+  if c.unchecked then .sent [makeReply c.env s] none else C12.reply c.env c.cfg chunks s
 
 /-- the key under which `reply` stores the pending messages: the `user@host` of `to` when it is a nick
 the bot knows, else the requester's -/
